@@ -91,6 +91,7 @@ theorem walk_step_plain (fs : FS) (f : Nat) (cur : Loc) (c : Str) (rest : List S
   | link t => exact absurd rfl (hnl t)
   | dir => rw [walk]; simp only [hd, h1, h2, if_false, hn]
   | file i => rw [walk]; simp only [hd, h1, h2, if_false, hn]
+  | other i => rw [walk]; simp only [hd, h1, h2, if_false, hn]
 
 theorem walk_step_none (fs : FS) (f : Nat) (cur : Loc) (c : Str) (rest : List Str) (fl : Bool)
     (hd : fs.get cur = some Node.dir) (h1 : ¬ (c = [] ∨ c = DOT)) (h2 : c ≠ DOTDOT)
@@ -168,6 +169,8 @@ theorem walk_last_nofollow (fs : FS) (f : Nat) (cur : Loc) (name : Str)
       rw [walk_step_plain fs f cur name [] false hd (not_special_of_clean hc).1 (not_special_of_clean hc).2 Node.dir hn (by intro t; simp), walk_nil]
     | file i =>
       rw [walk_step_plain fs f cur name [] false hd (not_special_of_clean hc).1 (not_special_of_clean hc).2 (Node.file i) hn (by intro t; simp), walk_nil]
+    | other i =>
+      rw [walk_step_plain fs f cur name [] false hd (not_special_of_clean hc).1 (not_special_of_clean hc).2 (Node.other i) hn (by intro t; simp), walk_nil]
 
 theorem splitSep_render (l : Loc) (hl : ∀ c ∈ l, Clean c) (hne : l ≠ []) :
     splitSep (render l) = [] :: l := by
@@ -299,6 +302,9 @@ theorem walk_cons_inv (fs : FS) (f : Nat) (cur : Loc) (c : Str) (rest : List Str
           | file i =>
             simp only [hn] at h
             exact WalkStep.plain (Node.file i) h1 h2 hn (by intro t; simp) h
+          | other i =>
+            simp only [hn] at h
+            exact WalkStep.plain (Node.other i) h1 h2 hn (by intro t; simp) h
           | link t =>
             simp only [hn, Bool.true_eq_false, and_false, if_false] at h
             cases f with
